@@ -112,6 +112,10 @@ pub trait SubCheck: Sync {
     fn watchdog_secs(&self) -> u64 {
         60
     }
+    /// maximum number of shrink steps after a failure (expensive cases want fewer)
+    fn shrink_iters(&self) -> usize {
+        400
+    }
     /// number of parallel shards actually run concurrently (the shard count is always SHARDS)
     fn parallelism(&self) -> usize {
         SHARDS
@@ -938,7 +942,7 @@ fn run_shard<S: SubCheck>(
             if tree.simplify() {
                 loop {
                     iters += 1;
-                    if iters > 400 {
+                    if iters > s.shrink_iters() {
                         break;
                     }
                     let cur = tree.current();
